@@ -34,7 +34,7 @@ TOL = 1e-9
 
 def facts_of(ctx):
     f = (ctx.extracted.get('DeliveryConsts') or {}).get('facts') or {}
-    return dict(thr=f.get('adj_threshold', '1'), fine=f.get('adj_fine_sub', 1), coarse=f.get('adj_coarse', 1),
+    return dict(thr=f.get('adj_threshold', '1'), fine=f.get('adj_fine_sub', 1), coarse=f.get('adj_coarse', 1), vpt=f.get('vec_per_timepoint', False),
                 g_screen=f.get('gate_screening_on_ti', True), g_triage=f.get('gate_triage_on_ti', False),
                 g_vx=f.get('gate_vaccination_on_ti', True), hioff=f.get('cap_slice_offset', 0))
 
@@ -47,7 +47,7 @@ def sched_line(case, facts):
     g = I.grid(simc)
     if case['delivery'] == 'routine':
         ys = s.get('years')
-        return ' '.join(['routine', str(facts['thr']), str(facts['fine']), str(facts['coarse']), lst(g, fr_s), fr_s(simc['start']),
+        return ' '.join(['routine', str(facts['thr']), str(facts['fine']), str(facts['coarse']), str(int(facts['vpt'])), lst(g, fr_s), fr_s(simc['start']),
                          fr_s(Fraction(simc['start']) + Fraction(simc['dur'])),
                          'none' if ys is None else lst([frac(y) for y in ys], fr_s),
                          'none' if 'start_year' not in s else fr_s(frac(s['start_year'])),
